@@ -177,8 +177,8 @@ class _ParseTreeProcessor(parsimonious.NodeVisitor):
 
     def visit_line(self, node: _Node, children: _Children) -> None:
         _ = children
-        if len(node.text) == 0:
-            # Line is empty, flush comment
+        if len(node.text.strip(" \t")) == 0:
+            # Line is empty (blanks alone do not make a line non-empty), flush comment
             self._flush_comment()
 
     def visit_end_of_line(self, _n: _Node, _c: _Children) -> None:
